@@ -428,9 +428,9 @@ impl Repr {
                 buffer.push(ones_word(hi_bits as _));
             }
 
-            // SAFETY: the bit length has been checked and capacity >= length,
-            //         so capacity is nonzero and larger than 2
-            unsafe { mem::transmute(buffer) }
+            // the buffer has exactly two words when n == DWORD_BITS_USIZE,
+            // from_buffer stores such a value inline
+            Self::from_buffer(buffer)
         }
     }
 
